@@ -1095,7 +1095,7 @@ fn zero_one(cfg: &Config, rep: &mut Report) {
 // ====================================================================================
 // 4. element casts: as_ / numcast on vectors, matrices, shapes
 
-trait CastEl: Copy + Debug + Send + Sync + 'static {
+trait CastEl: Copy + Debug + Send + Sync + PartialOrd + 'static {
     const NAME: &'static str;
     fn pool() -> Vec<Self>;
     fn random(rng: &mut Rng) -> Self;
